@@ -1,5 +1,6 @@
 #!/bin/bash
 # usage: tools/evalseed.sh Cxx [checks...]   — evaluates a seeded change living in /tmp/wt/Cxx (dev helper)
+# env: SEEDWT, SEEDOUT (directories), PEGMC (binary, default ./bin/pegmc), EVALTAG (suffix of the eval file)
 id=$1; shift
 WT=${SEEDWT:-/tmp/wt}/$id; OUT=${SEEDOUT:-/tmp/seeds}/$id
 export GOFLAGS=-mod=mod GOPROXY=off
@@ -15,7 +16,7 @@ rm -rf $P
 checks="$@"; [ -z "$checks" ] && checks=$(python3 -c "import json;print(' '.join(c['property_id'] for c in json.load(open('/verif/MANIFEST.json'))['checks']))")
 for c in $checks; do
   echo "== check $c"
-  (cd /verif && VERIF_REPO=$WT VERIF_EVIDENCE_DIR=$OUT/evidence timeout 1200 ./bin/pegmc check $c 2>/dev/null | grep -E "^(OK|FAIL|VIOLATION|  )" | head -4 | cut -c1-300)
+  (cd /verif && VERIF_REPO=$WT VERIF_EVIDENCE_DIR=$OUT/evidence timeout 1800 ${PEGMC:-./bin/pegmc} check $c 2>/dev/null | grep -E "^(OK|FAIL|VIOLATION|  )" | head -4 | cut -c1-300)
 done
-} > $OUT/eval.txt 2>&1
+} > $OUT/eval${EVALTAG:+.$EVALTAG}.txt 2>&1
 echo "done $id"
